@@ -3,7 +3,12 @@
 package contracts
 
 import (
+	"encoding/json"
+
+	"github.com/iancoleman/orderedmap"
 	"github.com/meshplus/bitxhub-core/governance"
+	nodemgr "github.com/meshplus/bitxhub-core/node-mgr"
+	"github.com/meshplus/bitxhub-core/validator"
 	"github.com/meshplus/bitxhub-model/pb"
 	zz "github.com/meshplus/bitxhub/internal/zzverif"
 )
@@ -65,4 +70,63 @@ func ZZH_C16_relayed_gate() {
 	zz.Assert("C02.relayed.counter+1", okF && postF.InterchainCounter[to] == c+1)
 	postT, okT := ic.interchainOf(to)
 	zz.Assert("C02.relayed.dst-mirror", okT && postT.SourceInterchainCounter[from] == c+1)
+}
+
+// ZZH_C16_logged_out_admin: an audit admin bound to an audit node. The node's logout is approved
+// (the real NodeManager tells the real RoleManager to pause the admin: frozen) or not; then the
+// admin's own logout is approved through the real RoleManager.Manage (forbidden). Afterwards
+// somebody applies for a new appchain naming that address as its admin (the real
+// AppchainManager.RegisterAppchain, and - if the application is accepted - the approval through the
+// real Manage): a role that was logged out never becomes usable again, under no role type.
+func ZZH_C16_logged_out_admin() {
+	w, cs := zzFullWorld()
+	w.audit = zz.Choice("audit", 2) == 1
+	zzPutGovAdmins(w, 4)
+	admin := "0xAD00000000000000000000000000000000000001"
+	node := "0xE200000000000000000000000000000000000002"
+	w.putObj(zzNodeAddr, nodemgr.NodeKey(node), nodemgr.Node{Account: node, NodeType: nodemgr.NVPNode, Name: "n2", Permissions: map[string]struct{}{"chA": {}},
+		AuditAdminAddr: admin, Status: governance.GovernanceAvailable})
+	ids := orderedmap.New()
+	ids.Set(admin, struct{}{})
+	w.putObj(zzRoleAddr, RoleTypeKey(string(AuditAdmin)), ids)
+	w.putObj(zzRoleAddr, RoleKey(admin), Role{ID: admin, RoleType: AuditAdmin, NodeAccount: node, Status: governance.GovernanceAvailable})
+	w.putObj(zzRoleAddr, OccupyAccountKey(admin), string(AuditAdmin))
+	roleOf := func() Role {
+		var r Role
+		w.getObj(zzRoleAddr, RoleKey(admin), &r)
+		return r
+	}
+	if zz.Choice("nodeLoggedOutFirst", 2) == 1 {
+		// the node manager's cascade on an approved node logout
+		_, err := zzTx(w, cs[zzRoleAddr], zzRoleAddr, zzNodeAddr, "PauseAuditAdmin", []*pb.Arg{pb.String(node)})
+		zz.Assert("C16.loggedout.pause", err == nil && roleOf().Status == governance.GovernanceFrozen)
+	}
+	// the admin's logout: submitted (status logouting), then approved
+	last := roleOf().Status
+	r := roleOf()
+	r.Status = governance.GovernanceLogouting
+	w.putObj(zzRoleAddr, RoleKey(admin), r)
+	_, err := zzTx(w, cs[zzRoleAddr], zzRoleAddr, zzGovAddr, "Manage",
+		[]*pb.Arg{pb.String(string(governance.EventLogout)), pb.String(string(APPROVED)), pb.String(string(last)), pb.String(admin), pb.Bytes(nil)})
+	zz.Assert("C16.loggedout.logout-approved", err == nil && roleOf().Status == governance.GovernanceForbidden)
+	// an application for a new chain names the logged-out address as chain admin
+	applicant := []string{zzMallory, admin}[zz.Choice("applicant", 2)]
+	ret, aerr := zzTx(w, cs[zzAppchainAddr], zzAppchainAddr, applicant, "RegisterAppchain", []*pb.Arg{
+		pb.String("chX"), pb.String("nameX"), pb.Bytes(nil), pb.String("ETH"), pb.Bytes([]byte("root")), pb.String("0xBroker"), pb.String("desc"),
+		pb.String(validator.HappyRuleAddr), pb.String("url"), pb.String(admin), pb.String("reason")})
+	zz.Cover("C16.loggedout.application-refused", aerr != nil)
+	if aerr == nil {
+		var gr governance.GovernanceResult
+		_ = json.Unmarshal(ret, &gr)
+		if p, ok := zzProposalOf(w, gr.ProposalID); ok {
+			_, _ = zzTx(w, cs[zzAppchainAddr], zzAppchainAddr, zzGovAddr, "Manage",
+				[]*pb.Arg{pb.String(string(governance.EventRegister)), pb.String(string(APPROVED)), pb.String(""), pb.String("chX"), pb.Bytes(p.Extra)})
+		}
+	}
+	post := roleOf()
+	zz.Assert("C16.loggedout.role-stays-forbidden", post.Status == governance.GovernanceForbidden)
+	for _, rt := range []string{string(AppchainAdmin), string(AuditAdmin), string(GovernanceAdmin)} {
+		res, _ := zzInvoke(w, cs[zzRoleAddr], zzRoleAddr, zzMallory, "IsAnyAvailableAdmin", []*pb.Arg{pb.String(admin), pb.String(rt)})
+		zz.Assert("C16.loggedout.never-an-available-admin-again", string(res) != "true")
+	}
 }
